@@ -41,11 +41,11 @@ def main():
         "version": 1,
         "setup_cmd": "cd /verif && /venv/bin/python -m wv.build",
         "hooks": {
-            "guard": "WHATSHAP_VERIF_TRACE",
+            "guard": "WHATSHAP_VERIF_TRACE (hook H1, whatshap phase instances) and WHATSHAP_VERIF_DPTRACE (hook H2, column store of the DP tables); both are environment variables naming an output file",
             "enable": "checks rsync /repo's working tree to /var/tmp/whverif/build, rebuild the changed extensions there and run the "
                       "drivers with that directory first on PYTHONPATH; hooks are inert unless the environment variable "
-                      "WHATSHAP_VERIF_TRACE=<ndjson file> is set (the drivers set it per run)",
-            "baseline_off_cmd": "cd /repo && env -u WHATSHAP_VERIF_TRACE -u WHATSHAP_VERIF_OPTS /venv/bin/python -m pytest -ra -q -p no:cacheprovider --timeout=900 --continue-on-collection-errors",
+                      "WHATSHAP_VERIF_TRACE=<ndjson file> (H1) or WHATSHAP_VERIF_DPTRACE=<text file> (H2, read once per process by the C++ code) is set (the drivers set them)",
+            "baseline_off_cmd": "cd /repo && env -u WHATSHAP_VERIF_TRACE -u WHATSHAP_VERIF_DPTRACE -u WHATSHAP_VERIF_OPTS /venv/bin/python -m pytest -ra -q -p no:cacheprovider --timeout=900 --continue-on-collection-errors",
             "source_commits": commits,
             "add_only": True,
         },
